@@ -7,7 +7,7 @@
     No proofs in this file. *)
 From Coq Require Import List ZArith Bool String.
 Import ListNotations.
-Open Scope Z_scope.
+Local Open Scope Z_scope.
 
 (* ------------------------------------------------------------------ facts re-extracted from /repo *)
 
@@ -222,8 +222,13 @@ Definition can_mutate (m : mid) : bool :=
   | _ => false
   end.
 
-(** methods whose body touches no store at all (gas used by the body is exactly 0) *)
-Definition stateless (m : mid) : bool := match m with FT_whoAmI => true | _ => false end.
+(** calls whose body touches no store at all (the local gas meter records exactly 0) *)
+Definition stateless (m : mid) (args : list arg) : bool :=
+  match m, args with
+  | FT_whoAmI, _ => true
+  | W_executeMulti, [AMsgs []] => true
+  | _, _ => false
+  end.
 
 (* ------------------------------------------------------------------ gas *)
 
